@@ -19,9 +19,10 @@ import time
 from vf.core import Check, HarnessError
 from vf.props import c01
 
-MODULES = ["Model.Pretty", "Proofs.Pretty", "Properties.C07"]
+MODULES = ["Model.Expr", "Model.Gen", "Model.Pretty", "Proofs.Pretty", "Properties.C07"]
 P = "SqlglotModel.Properties.C07."
-THEOREMS = [P + n for n in ["indent_ws_only", "sep_seg_ws_only", "wrap_ws_only", "sentinel_roundtrip",
+THEOREMS = [P + n for n in ["indent_ws_only", "sep_seg_ws_only", "wrap_ws_only", "expressions_ws_only", "expressions_empty_item_witness",
+                            "sentinel_absent_in_output", "doc_render_ws_only", "sentinel_roundtrip",
                             "sentinel_in_literal_changes_value", "sentinel_overlap_changes_value", "sanitize_comment_examples"]]
 SENT = "__SQLGLOT__LB__"
 
@@ -151,14 +152,14 @@ def strip_comments(e):
     return e
 
 
-def verdict(s: str, d: str, opts: dict):
-    """None if the property holds for source s in dialect d under opts, else (kind, detail)"""
+def verdict(s: str, d: str, opts: dict, read: str | None = None):
+    """None if the property holds for the tree parse_read(s) generated in dialect d under opts, else (kind, detail)"""
     sqlglot, exp, _ = sg()
     from sqlglot.errors import SqlglotError
 
     dd = d or None
     try:
-        e = sqlglot.parse_one(s, dialect=dd)
+        e = sqlglot.parse_one(s, dialect=(d if read is None else read) or None)
         default = canon(e, d)
     except SqlglotError:
         return None
@@ -167,7 +168,11 @@ def verdict(s: str, d: str, opts: dict):
     try:
         base_tree = sqlglot.parse_one(default, dialect=dd)
     except Exception as ex:  # noqa
+        if read is not None:
+            return None  # a tree read in another dialect whose default rendering the target cannot parse: a transpilation gap, not C07
         return "noparse-default", f"default output does not parse: {default!r}: {type(ex).__name__}"
+    if any(isinstance(n, exp.Command) for n in e.walk()) or any(isinstance(n, exp.Command) for n in base_tree.walk()):
+        return None  # Command fallback: the tree is the raw statement text (whitespace included), there is nothing to compare
     try:
         out = canon(e, d, **opts)
     except Exception as ex:  # noqa
@@ -183,12 +188,121 @@ def verdict(s: str, d: str, opts: dict):
         t2 = sqlglot.parse_one(out, dialect=dd)
     except Exception as ex:  # noqa
         return "noparse", f"output under {opts} does not parse: {out!r}: {type(ex).__name__}"
-    # equal up to comments / quoting flags / function-name case: compare canonical re-renderings
-    norm = {"comments": False, "identify": True, "normalize_functions": "upper"}
-    a, b = canon(t2, d, **norm), canon(base_tree, d, **norm)
+    # equal up to comments / identifier quoting FLAGS / function-name case, each only for the option that licenses it;
+    # everything else (string literals, node kinds, other args) must be identical
+    a, b = norm_tree(t2, opts), norm_tree(base_tree, opts)
     if a != b:
-        return "tree", f"parse(output under {opts}) differs from parse(default output): {a!r} vs {b!r}"
+        return "tree", (f"parse(output under {opts}) differs from parse(default output): {out!r} vs {default!r}")
     return None
+
+
+def norm_tree(t, opts):
+    _, exp, _ = sg()
+    t = t.copy()
+    drop_comments = opts.get("comments") is False or opts.get("pretty")
+    for n in t.walk():
+        if drop_comments:
+            n.comments = None
+        if opts.get("identify") and isinstance(n, exp.Identifier):
+            n.args["quoted"] = False
+        if "normalize_functions" in opts and isinstance(n, exp.Anonymous) and isinstance(n.this, str):
+            n.args["this"] = n.this.upper()
+    return t
+
+
+C0, C1, Q0, Q1 = c01.M_C0, c01.M_C1, c01.M_Q0, c01.M_Q1
+COLTYPES = ["INT", "TEXT", "BIGINT", "DECIMAL(10, 2)", "VARCHAR(10)", "DATE", "TIMESTAMP", "BOOLEAN", "DOUBLE"]
+COLNAMES = ["a", "b", "c", "id", "Val", "ts", "x1"]
+TABNAMES = ["foo", "t", "db.t2", "Tbl"]
+
+
+class DGen:
+    """the DDL / DML subset named by the property, with derivation markers (optional parts are deletable spans)"""
+
+    def __init__(self, rng, qg):
+        self.rng, self.qg = rng, qg
+
+    def opt(self, text, p=0.4):
+        return C0 + text + C1 if self.rng.random() < p else ""
+
+    def expr(self, depth=1, lvl=0):
+        return self.qg.g.level(lvl, depth)
+
+    def coldef(self, name):
+        r = self.rng
+        s = name + " " + r.choice(COLTYPES)
+        s += self.opt(" NOT NULL", 0.3) + self.opt(" DEFAULT " + r.choice(["0", "'d'", "NULL"]), 0.2)
+        s += self.opt(" PRIMARY KEY", 0.1) + self.opt(" COMMENT 'c " + name + "'", 0.15)
+        return s
+
+    def create_table(self, depth):
+        r = self.rng
+        cols = r.sample(COLNAMES, r.randint(1, 4))
+        body = self.coldef(cols[0]) + "".join(C0 + ", " + self.coldef(c) + C1 for c in cols[1:])
+        body += self.opt(", PRIMARY KEY (" + cols[0] + ")", 0.15) + self.opt(", UNIQUE (" + cols[-1] + ")", 0.1)
+        body += self.opt(", CONSTRAINT ck CHECK (" + self.expr(1) + ")", 0.1)
+        s = "CREATE " + self.opt("OR REPLACE ", 0.08) + self.opt("TEMPORARY ", 0.08) + "TABLE " + self.opt("IF NOT EXISTS ", 0.2) + r.choice(TABNAMES)
+        s += " (" + body + ")"
+        rest = [c for c in COLNAMES if c not in cols]
+        k = r.random()
+        if k < 0.3:      # Hive-style typed partition columns
+            pc = r.sample(rest, r.randint(1, 2))
+            s += C0 + " PARTITIONED BY (" + ", ".join(c + " " + r.choice(["INT", "TEXT", "DATE"]) for c in pc) + ")" + C1
+        elif k < 0.5:    # untyped
+            s += C0 + " PARTITIONED BY (" + ", ".join(r.sample(cols, r.randint(1, min(2, len(cols))))) + ")" + C1
+        elif k < 0.6:
+            s += C0 + " PARTITION BY " + cols[0] + C1
+        s += self.opt(" COMMENT 'tbl c'", 0.15) + self.opt(" WITH (format='ORC', k1=1)", 0.1) + self.opt(" STORED AS PARQUET", 0.1)
+        s += self.opt(" LOCATION 's3://b/p'", 0.08) + self.opt(" TBLPROPERTIES ('k'='v')", 0.08) + self.opt(" ENGINE=InnoDB", 0.05)
+        s += self.opt(" CLUSTER BY (" + cols[0] + ")", 0.05)
+        return s
+
+    def stmt(self, depth):
+        r = self.rng
+        k = r.random()
+        t = r.choice(TABNAMES)
+        if k < 0.34:
+            return self.create_table(depth)
+        if k < 0.42:
+            return "CREATE TABLE " + t + self.opt(" COMMENT 'c'", 0.1) + " AS " + self.qg.query(depth)
+        if k < 0.52:
+            return ("CREATE " + self.opt("OR REPLACE ", 0.3) + self.opt("MATERIALIZED ", 0.1) + "VIEW " + r.choice(["v", "db.V1"])
+                    + self.opt(" (c1, c2)", 0.2) + " AS " + self.qg.query(depth))
+        if k < 0.64:
+            cols = r.sample(COLNAMES, 2)
+            rows = "(" + self.expr(1, 4) + ", " + self.expr(0, 4) + ")" + "".join(C0 + ", (" + self.expr(0, 4) + ", 'v')" + C1 for _ in range(r.choice([0, 0, 1, 2])))
+            return "INSERT INTO " + t + self.opt(" (" + ", ".join(cols) + ")", 0.6) + (" VALUES " + rows if r.random() < 0.6 else " " + self.qg.query(depth))
+        if k < 0.74:
+            sets = "a = " + self.expr(1) + "".join(C0 + ", " + c + " = " + self.expr(1, 4) + C1 for c in r.sample(["b", "c"], r.choice([0, 1, 2])))
+            return "UPDATE " + t + " SET " + sets + self.opt(" WHERE " + self.expr(1), 0.7)
+        if k < 0.82:
+            return "DELETE FROM " + t + self.opt(" WHERE " + self.expr(1), 0.8)
+        if k < 0.90:
+            return ("MERGE INTO " + t + " AS tgt USING s ON tgt.a = s.a" + C0 + " WHEN MATCHED" + self.opt(" AND " + self.expr(0), 0.3)
+                    + " THEN UPDATE SET tgt.b = " + self.expr(1, 4) + C1 + C0 + " WHEN NOT MATCHED THEN INSERT (a, b) VALUES (s.a, " + self.expr(0, 4) + ")" + C1
+                    + self.opt(" WHEN MATCHED THEN DELETE", 0.2))
+        if k < 0.94:
+            return "ALTER TABLE " + t + " ADD COLUMN " + self.coldef(r.choice(COLNAMES))
+        if k < 0.97:
+            return "DROP " + r.choice(["TABLE", "VIEW"]) + self.opt(" IF EXISTS", 0.5) + " " + t + self.opt(" CASCADE", 0.2)
+        return "CREATE " + self.opt("UNIQUE ", 0.3) + "INDEX ix ON " + t + " (a" + self.opt(", b DESC", 0.4) + ")"
+
+
+DDL_TEMPLATES = [
+    "CREATE TABLE foo (a TEXT) PARTITIONED BY (b INT, c TEXT)", "CREATE TABLE foo (a TEXT, b INT) PARTITIONED BY (b)",
+    "CREATE TABLE t (a INT NOT NULL DEFAULT 0 COMMENT 'x', b TEXT, PRIMARY KEY (a)) COMMENT 'y'", "CREATE TABLE t AS SELECT a, b FROM u WHERE a > 1",
+    "CREATE OR REPLACE VIEW v (c1) AS SELECT a FROM t", "INSERT INTO t (a, b) VALUES (1, 'x'), (2, 'y')", "INSERT INTO t SELECT a, b FROM u",
+    "UPDATE t SET a = a + 1, b = 'z' WHERE c IS NULL", "DELETE FROM t WHERE a IN (1, 2)",
+    "MERGE INTO t AS tgt USING s ON tgt.a = s.a WHEN MATCHED THEN UPDATE SET tgt.b = s.b WHEN NOT MATCHED THEN INSERT (a, b) VALUES (s.a, s.b)",
+    "ALTER TABLE t ADD COLUMN c INT", "DROP TABLE IF EXISTS t", "CREATE TABLE t (a INT) WITH (format='ORC')",
+    "CREATE TABLE t (a INT) STORED AS PARQUET LOCATION 's3://b/p' TBLPROPERTIES ('k'='v')",
+    "CREATE TABLE t (a INT, UNIQUE (a))", "CREATE TABLE t (a INT) PARTITION BY a", "CREATE TEMPORARY TABLE db.t2 (c INT)",
+    "CREATE TABLE IF NOT EXISTS t (a INT)", "CREATE TABLE t (a INT) STORED AS PARQUET", "CREATE TABLE t (a INT, CONSTRAINT ck CHECK (a > 0))",
+    "CREATE UNIQUE INDEX ix ON t (a, b DESC)", "CREATE MATERIALIZED VIEW v AS SELECT a FROM t", "DROP VIEW IF EXISTS v CASCADE",
+    "CREATE TABLE t (a INT PRIMARY KEY, b TEXT COMMENT 'c b') CLUSTER BY (a)", "CREATE TABLE t (a INT) ENGINE=InnoDB",
+    "UPDATE t SET a = 1", "DELETE FROM t", "MERGE INTO t AS tgt USING s ON tgt.a = s.a WHEN MATCHED THEN DELETE",
+]
+READ_DIALECTS = [None, None, "", "hive", "spark", "mysql", "postgres", "bigquery", "snowflake", "tsql", "duckdb", "presto"]
 
 
 def skeleton(s, d):
@@ -208,51 +322,63 @@ def opt_key(opts):
     return "+".join(keys) or "default"
 
 
+OPT_SWEEP = [
+    {"pretty": True, "pad": 2, "indent": 2, "max_text_width": 20}, {"pretty": True, "pad": 0, "indent": 4, "max_text_width": 1, "leading_comma": True},
+    {"comments": False}, {"identify": True}, {"identify": "safe"}, {"normalize_functions": "lower"}, {"normalize_functions": False},
+    {"pretty": True, "identify": True, "comments": False, "normalize_functions": "upper", "max_text_width": 80},
+]
+
+
 def search(chk: Check, budget_s: float) -> None:
     t0 = time.time()
     rng = chk.rng
-    tabs = c01.dialect_tables(Check.__new__(Check)) if False else None
     dummy = _Quiet()
     tabs = c01.dialect_tables(dummy)
     dialects = sorted(tabs)
     qg = c01.QGen(rng, tabs[""])
+    dg = DGen(rng, qg)
     tried = found = 0
 
     def rand_opts():
         o = {}
-        if rng.random() < 0.8:
+        if rng.random() < 0.7:
             o["pretty"] = True
             for k, vs in OPTION_PRODUCT.items():
                 o[k] = rng.choice(vs)
         if rng.random() < 0.3:
             o["comments"] = False
-        if rng.random() < 0.3:
+        if rng.random() < 0.45:
             o["identify"] = rng.choice([True, "safe"])
         if rng.random() < 0.3:
             o["normalize_functions"] = rng.choice(["upper", "lower", False])
         return o
 
-    def consider(m, d, opts):
+    def consider(m, d, opts, read=None):
         nonlocal tried, found
         tried += 1
         s = c01.unmark(m)
-        v = verdict(s, d, opts)
+        v = verdict(s, d, opts, read)
         chk.count("search:" + ("holds" if v is None else v[0]))
         if v is None:
             return
         found += 1
-        small = shrink(m, d, opts, v[0], time.time() + 8.0)
+        small = shrink(m, d, opts, v[0], time.time() + 8.0, read)
         # minimise the options too
         for k in list(opts):
             o2 = {kk: vv for kk, vv in opts.items() if kk != k}
-            v3 = verdict(small, d, o2)
+            v3 = verdict(small, d, o2, read)
             if v3 and v3[0] == v[0]:
                 opts = o2
-        v2 = verdict(small, d, opts) or v
-        key = v2[0] + ":" + opt_key(opts) + ":" + skeleton(small, d).replace("__SQLGLOT__LB__", "SENTINEL")
+        if read is not None:
+            v3 = verdict(small, d, opts, None)
+            if v3 and v3[0] == v[0]:
+                read = None
+        v2 = verdict(small, d, opts, read) or v
+        key = v2[0] + ":" + opt_key(opts) + ":" + skeleton(small, d if read is None else read).replace("__SQLGLOT__LB__", "SENTINEL")
         if SENT in small or "__SQLGLOT__LB_" in small:
             key = v2[0] + ":text-contains-sentinel-prefix"
-        chk.report_violation(key, f"[{d or 'base'}] {v2[1]}", {"dialect": d, "sql": small, "options": opts, "original": s}, {"dialect": d})
+        chk.report_violation(key, f"[{d or 'base'}{'' if read is None else ' <- ' + (read or 'base')}] {v2[1]}",
+                             {"dialect": d, "read": read, "sql": small, "options": opts, "original": s}, {"dialect": d})
 
     templates = ["SELECT '__SQLGLOT__LB__'", "SELECT '__SQLGLOT__LB_\n_'", "SELECT a /* c1 */, b -- c2\nFROM t", "SELECT a -- x */ y\n, b",
                  "SELECT \"Q w\", f(a) FROM t WHERE a IN (1, 2, 3) AND b BETWEEN 1 AND 2", "SELECT CASE WHEN a THEN 1 ELSE 2 END FROM (SELECT 1) AS s"]
@@ -260,19 +386,33 @@ def search(chk: Check, budget_s: float) -> None:
         for d in dialects:
             consider(s, d, {"pretty": True, "pad": 2, "indent": 2, "max_text_width": 20})
             consider(s, d, {"comments": False})
+    # the DDL / DML subset: every template x every dialect x the option sweep, read in the target dialect and in the base dialect
+    t1 = time.time()
+    for s in DDL_TEMPLATES:
+        for d in dialects:
+            for o in OPT_SWEEP:
+                consider(s, d, dict(o))
+                consider(s, d, dict(o), "")
+    chk.cov["ddl_dml_template_sweep"] = {"templates": len(DDL_TEMPLATES), "dialects": len(dialects), "option_sets": len(OPT_SWEEP),
+                                         "wall_s": round(time.time() - t1, 1)}
+    t0 = time.time()
     while time.time() - t0 < budget_s and len(chk.violations) < 5:
         depth = rng.choice([0, 1, 1, 2])
-        m = qg.query(depth)
-        if rng.random() < 0.3:
+        ddl = rng.random() < 0.5
+        m = Q0 + dg.stmt(min(depth, 1)) + Q1 if ddl else qg.query(depth)
+        chk.count("search:stmt:" + ("ddl/dml" if ddl else "select"))
+        if not ddl and rng.random() < 0.3:
             m = m.replace(" FROM ", " /* c0m */ FROM ", 1) if " FROM " in m else m + " -- c0m"
         chk.case(("search", c01.unmark(m)), nontrivial=True)
         for d in [""] + rng.sample(dialects, 4):
-            consider(m, d, rand_opts())
+            consider(m, d, rand_opts(), rng.choice(READ_DIALECTS))
             if time.time() - t0 > budget_s:
                 break
     chk.search_info = {"ran": True, "budget_s": budget_s, "statement_dialect_option_triples": tried, "violating": found,
-                       "oracle": "parse(sql(**opts)) equals parse(sql()) up to comments / quoting / function case (canonical re-rendering); "
-                                 "pretty output has no sentinel; comments=False output has no comment text"}
+                       "oracle": "parse_d(sql_d(tree, **opts)) equals parse_d(sql_d(tree)) as TREES after clearing only what the option licenses "
+                                 "(comments for comments=False/pretty, Identifier.quoted for identify, Anonymous name case for normalize_functions); "
+                                 "pretty output has no sentinel; comments=False output has no comment text; trees come from SELECT/expression and "
+                                 "DDL/DML grammars read in the target dialect or another dialect"}
 
 
 class _Quiet:
@@ -283,9 +423,9 @@ class _Quiet:
         self.cov = {}
 
 
-def shrink(m, d, opts, kind, deadline):
+def shrink(m, d, opts, kind, deadline, read=None):
     def ok(c):
-        v = verdict(c01.unmark(c), d, opts)
+        v = verdict(c01.unmark(c), d, opts, read)
         return v is not None and v[0] == kind
 
     cur = m
@@ -349,6 +489,6 @@ def replay(path: str) -> int:
     if not r:
         print(json.dumps(rec, indent=1))
         return 1
-    v = verdict(r["sql"], r["dialect"], r["options"])
+    v = verdict(r["sql"], r["dialect"], r["options"], r.get("read"))
     print("replay:", ("VIOLATES: " + v[1]) if v else "holds")
     return 1 if v else 0
